@@ -67,8 +67,9 @@
                   identifiables per model: `format!("{counter}")` of make_unique_item_name; honest and kept — agent-c13's
                   C13_unique_loop_total replaces it by the same kind of bound).
    C12_no_panic2_partial [partial]: the large alphabet op2 (Tree/Script2.v) after any such history: Op1 (all of `op`), OpSort and
-                  OpSortModel (agent-c14's C14_never_fails_histories_real) are covered; C12_coverage2: PENDING are OpDuplicate,
-                  OpLoad, OpSetVersion, OpCheckCompat, OpSerializeFile, OpSerializeElem (parts exist: C02_load_total for the
+                  OpSortModel (agent-c14's C14_never_fails_histories_real) and OpSerializeElem (Tree/NoPanicProofsSer.v: the three
+                  string-table lookups, content_mode, the recursion on fuel) are covered; C12_coverage2: PENDING are OpDuplicate,
+                  OpLoad, OpSetVersion, OpCheckCompat, OpSerializeFile (parts exist: C02_load_total for the
                   parser, C17_unwrap_safe_real for the mask unwrap, C13_unique_loop_total for the copies' counter loop; not
                   composed to the whole call — the fuzzer and the properties' own harnesses cover them). *)
 From AV Require Import Base.Bytes Base.Outcome Hash.HashModel Hash.HashRealEnum Hash.HashRealElement Spec.SpecOps Spec.SpecReal Xml.TablesOk.
@@ -216,7 +217,7 @@ Theorem C12_panicfree_reachable :
 Proof. exact panicfree_reachable_real. Qed.
 
 Theorem C12_coverage2 : forall o,
-  covered_op2 o = match o with Op1 _ | OpSort _ | OpSortModel _ => true | _ => false end.
+  covered_op2 o = match o with Op1 _ | OpSort _ | OpSortModel _ | OpSerializeElem _ => true | _ => false end.
 Proof. exact coverage2. Qed.
 
 Theorem C12_no_panic2_partial :
